@@ -3,7 +3,7 @@ from props.fsmlib import *
 
 def cases(tier):
     L = []
-    fams = ['f5', 'f10', 'foroot_small', 'fw5', 'foo'] if tier == 'quick' else THOROUGH + ['fw5', 'foo']
+    fams = ['f5', 'f10_small', 'foroot_small', 'fw5', 'foo'] if tier == 'quick' else THOROUGH + ['fw5', 'foo']
     T = 1 if tier == 'quick' else 3
     for fam in fams:
         small = fam.endswith('_small'); fam = fam.replace('_small', '')
@@ -16,6 +16,7 @@ def cases(tier):
         # (b) single pending request, guards approve: answers inside guards vs what then happens
         for k in ((1, 2, 3, 4) if not small else ()):
             L.append(fsm_case('C13', fx, 'imm%d' % k, ['P_C13', 'ENTRY=2', 'KIND=%d' % k, 'CB_BUDGET=0', 'NO_CANCEL'] + (['C13_EVERY_GUARD'] if tier == 'thorough' and fam == 'f5' else []), timeout=600 * T, witness=(k == 1)))
+            if fx['T'].ns >= 10: L[-1].mem_est = 11          # 10-13 state fixtures: ~10 GB per query (measured)
         # (c) nothing pending inside update callbacks
         L.append(fsm_case('C13', fx, 'update', ['P_C13', 'ENTRY=1', 'CB_BUDGET=0'], timeout=300 * T, witness=False))
         # resume(region) activates what isResumable reported
